@@ -286,8 +286,15 @@ def main():
         'wall_s': round(ctx.elapsed(), 2),
         'violations': len(oracle_fail) if oracle_fail else (1 if rc else 0),
     }
-    os.makedirs(os.path.join(VERIF, 'evidence'), exist_ok=True)
-    with open(os.path.join(VERIF, 'evidence', f'{prop}.json'), 'w') as f:
+    # a development run without the build / audit stage never replaces the evidence of a full run
+    # ... and neither does a run against a scratch copy of the repository (seeded changes)
+    ev_dir = os.path.join(VERIF, 'evidence')
+    if a.no_build:
+        ev_dir = os.path.join(ev_dir, 'nobuild')
+    elif os.path.realpath(REPO) != '/repo':
+        ev_dir = os.path.join(ev_dir, 'scratch')
+    os.makedirs(ev_dir, exist_ok=True)
+    with open(os.path.join(ev_dir, f'{prop}.json'), 'w') as f:
         json.dump(ev, f, indent=1, sort_keys=True, default=str)
     print(f'{prop} {a.tier}: obligations {discharged}/{len(obligations)} evaluations={ctx.evaluations} '
           f'distinct_nontrivial={len(ctx.distinct)} known={sorted(seen_known)} wall={ev["wall_s"]}s rc={rc}')
